@@ -441,16 +441,17 @@ def classify(ctx, binary, cases, traces, rejected, hw, deadline):
         return
     open_devs = [d for d in vlib.open_devs(ctx.prop) if d in DEVS]
     left = set(rejected)
-    for dev in open_devs:
-        if not left:
-            break
-        acc, _ = validate(ctx, {k: traces[k] for k in left}, on=[dev], label="explain-" + dev)
+    sub = {k: traces[k] for k in left}
+    accs = _par([lambda dev=dev: validate(ctx, sub, on=[dev], label="explain-" + dev)[0] for dev in open_devs], width=4)
+    for dev, acc in zip(open_devs, accs):
+        acc = acc & left
         if acc:
             k = sorted(acc, key=lambda x: len(traces[x]))[0]
             f = vlib.open_finding(ctx.prop, dev)
             known(ctx, dev, "%s; %d trace(s) of this run, e.g. %s" % (
                 f.get("what", ""), len(acc), json.dumps(brief(traces[k]), separators=(",", ":"))))
-            ctx.cov.setdefault("explained_by_open_finding", {})[dev] = len(acc)
+            ctx.cov.setdefault("explained_by_open_finding", {})[dev] = \
+                ctx.cov.setdefault("explained_by_open_finding", {}).get(dev, 0) + len(acc)
         left -= acc
     if left and len(open_devs) > 1:
         acc, _ = validate(ctx, {k: traces[k] for k in left}, on=open_devs, label="explain-all-open")
@@ -632,11 +633,13 @@ def run(ctx):
             ctx.sample({"case": cases[k], "trace": brief(traces[k])}, limit=3)
     if not acc:
         raise vlib.InfraError("no trace at all was accepted - harness or trace specification broken")
-    selftest(ctx, traces, [k for k in sorted(acc)])
-    handle_crashes(ctx, binary, crashes, cases)
     rejected = sorted(set(traces) - acc)
     ctx.cov["rejected_by_corrected_design"] = len(rejected)
-    classify(ctx, binary, cases, traces, rejected, hw, deadline)
+
+    def verdicts():
+        handle_crashes(ctx, binary, crashes, cases)
+        classify(ctx, binary, cases, traces, rejected, hw, deadline)
+    _par([lambda: selftest(ctx, traces, [k for k in sorted(acc)]), verdicts], width=2)
     ctx.cov["exhaustive"] = False
     ctx.cov["rule"] = ("model: every interleaving of ConnStream.tla for the listed configurations; implementation: one trace "
                        "per seeded case (kind x 1-4 writers x chunking x delays x drain|cut) run on the real stream; "
